@@ -1,7 +1,9 @@
 //! pm-harness: drives the real portmatching code in-process and prints one record per case
 //! in the line protocol of DESIGN Appendix B. `pm-harness <stage> [--thorough]`, seed from
 //! the environment variable VERIF_SEED (default 1).
+mod con;
 mod idx;
+mod maps;
 mod proto;
 mod rng;
 mod table;
@@ -19,6 +21,8 @@ fn main() {
     match stage {
         "idx.missing" => idx::run_missing(seed, thorough),
         "idx.bindall" => idx::run_bindall(seed, thorough),
+        "con" => con::run(seed, thorough),
+        "maps" => maps::run(seed, thorough),
         _ => {
             eprintln!("unknown stage {stage}");
             std::process::exit(2);
